@@ -17,6 +17,13 @@ def main():
         if pid not in CHECKS:
             continue
         c = CHECKS[pid]
+        # the evidence file records the level of gen/<P>.py; it must be the category claimed here (vp check compares them)
+        import re
+        g = os.path.join(HERE, "gen", pid + ".py")
+        if os.path.exists(g):
+            m = re.search(r'^LEVEL\s*=\s*"(\w+)"', open(g).read(), re.M)
+            if m and m.group(1) != c["category"]:
+                sys.exit("mkmanifest: gen/%s.py LEVEL = %s but manifest.d/%s.json category = %s" % (pid, m.group(1), pid, c["category"]))
         checks.append({
             "property_id": pid,
             "quick_cmd": "./check %s --tier quick" % pid,
